@@ -22,6 +22,10 @@ func DebugOne(prop, engine string, verifSeed uint64, index int64) string {
 	}
 	b, _ := json.Marshal(sc.Cfg)
 	fmt.Fprintf(&sb, "cfg=%s stats=%+v\n", b, r.Stats)
+	if os.Getenv("VERIF_DUMP_SCENARIO") != "" {
+		sj, _ := json.MarshalIndent(sc, "", " ")
+		fmt.Fprintf(&sb, "scenario=%s\n", sj)
+	}
 	return sb.String()
 }
 
